@@ -130,7 +130,10 @@ ASSUME \E p \in SeqsOf(Rows, 2) : Pipeline(p, Reps, TRUE, 0).defaults
 \*   SinglePhaseReservoir(nx, pressure_fracface = p_initial, pressure_initial = p_initial,
 \*                        FlowProperties(pvt_table, p_initial)).simulate(days / tau, pressure_fracface = schedule)
 \*   .recovery_factor()
-RefModel == [nx |-> 80, ctor_fracface |-> "p_initial", ctor_initial |-> "p_initial", fluid_at |-> "p_initial",
+\* ctor_fracface: the scalar setting of the reference reservoir is the first entry of the history, not p_initial as in the code under
+\* test: the recovery of "the variable-pressure simulation for that pressure history" does not depend on the scalar the object was
+\* built with (a schedule replaces it, C17), so a forward model that leaks the constructor's scalar is seen here
+RefModel == [nx |-> 80, ctor_fracface |-> "schedule[0]", ctor_initial |-> "p_initial", fluid_at |-> "p_initial",
              time |-> "days/tau", schedule |-> "pressure_fracface", recovery |-> "flux"]
 
 \* ---- specification ---------------------------------------------------------------------------------------------------
